@@ -450,7 +450,12 @@ def _parse_single_ix_experiment_3_0(struct: ir.Struct) -> SqwIXExperiment:
         run_id=int(g("run_id")) - 1,
         efix=efix,
         emode=EnergyMode(g("emode")),
-        en=sc.array(dims=["energy_transfer"], values=en, unit="meV"),
+        # 2d in indirect mode with per-detector energy transfer
+        en=sc.array(
+            dims=["detector", "energy_transfer"][-max(np.ndim(en), 1) :],
+            values=en,
+            unit="meV",
+        ),
         psi=sc.scalar(g("psi"), unit=angle_unit),
         u=sc.vector(_get_struct_field(struct, "u").data),
         v=sc.vector(_get_struct_field(struct, "v").data),
